@@ -64,6 +64,28 @@ async fn converter_lookup_total(a: &[String]) -> Result<bool> {
 	Ok(false)
 }
 
+fn geo_bbox_nonempty(a: &[String]) -> Result<bool> {
+	// args: z west south east north — C15: every valid geographic box maps to a non-empty tile box covering it
+	let z: u8 = arg(a, 0);
+	let g = GeoBBox(arg(a, 1), arg(a, 2), arg(a, 3), arg(a, 4));
+	if g.check().is_err() { println!("geo box is not valid"); return Ok(false); }
+	let r = TileBBox::from_geo(z, &g);
+	println!("from_geo -> {r:?}");
+	let bad = match &r { Err(_) => true, Ok(b) => b.is_empty() };
+	let mut p = TileBBoxPyramid::new_full(z);
+	p.intersect_geo_bbox(&g); // panics on the unfixed tree
+	Ok(bad || p.get_level_bbox(z).is_empty())
+}
+
+async fn filter_bbox_build(a: &[String]) -> Result<bool> {
+	// args: west south east north — C09/C19: an invalid argument is an error at build time, never a panic
+	let vpl = format!("from_debug format=png | filter_bbox bbox=[{},{},{},{}]", a[0], a[1], a[2], a[3]);
+	let f = versatiles_pipeline::PipelineFactory::new_dummy();
+	let r = f.operation_from_vpl(&vpl).await;
+	println!("build -> {}", if r.is_ok() { "Ok".to_string() } else { format!("Err({:?})", r.err().unwrap().to_string()) });
+	Ok(false)
+}
+
 fn main() -> Result<()> {
 	let args: Vec<String> = std::env::args().skip(1).collect();
 	if args.is_empty() { eprintln!("usage: verif_replay <case> args…"); std::process::exit(2); }
@@ -72,6 +94,8 @@ fn main() -> Result<()> {
 	let r = std::panic::catch_unwind(|| -> Result<bool> {
 		match args[0].as_str() {
 			"converter_lookup_vs_stream" => rt.block_on(converter_lookup_vs_stream(rest)),
+			"geo_bbox_nonempty" => geo_bbox_nonempty(rest),
+			"filter_bbox_build" => rt.block_on(filter_bbox_build(rest)),
 			"converter_lookup_total" => rt.block_on(converter_lookup_total(rest)),
 			other => { eprintln!("unknown case {other}"); std::process::exit(2); }
 		}
